@@ -69,21 +69,21 @@ macro_rules! fsb_try_new {
         }
     };
 }
-// @unit name=fsb_try_new_neg props=C09 kind=bounded bound=value_length=-1_values<=7_bytes_validity<=8_bits fns=FixedSizeBinaryArray::try_new,FixedSizeBinaryArray::try_new_with_len
+// @unit name=fsb_try_new_neg props=C09 kind=bounded bound=value_length=-1_values<=7_bytes_validity<=8_bits fns=FixedSizeBinaryArray::try_new,FixedSizeBinaryArray::try_new_with_len tier=quick
 fsb_try_new!(fsb_try_new_neg, -1);
-// @unit name=fsb_try_new_w0 props=C09,C01 kind=bounded bound=value_length=0_values<=7_bytes_validity<=8_bits fns=FixedSizeBinaryArray::try_new,FixedSizeBinaryArray::try_new_with_len,FixedSizeBinaryArray::value
+// @unit name=fsb_try_new_w0 props=C09,C01 kind=bounded bound=value_length=0_values<=7_bytes_validity<=8_bits fns=FixedSizeBinaryArray::try_new,FixedSizeBinaryArray::try_new_with_len,FixedSizeBinaryArray::value tier=quick
 fsb_try_new!(fsb_try_new_w0, 0);
-// @unit name=fsb_try_new_w1 props=C09,C01 kind=bounded bound=value_length=1_values<=7_bytes_validity<=8_bits fns=FixedSizeBinaryArray::try_new,FixedSizeBinaryArray::try_new_with_len,FixedSizeBinaryArray::value tier=thorough note=not_confirmed_at_checkpoint
+// @unit name=fsb_try_new_w1 props=C09,C01 kind=bounded bound=value_length=1_values<=7_bytes_validity<=8_bits fns=FixedSizeBinaryArray::try_new,FixedSizeBinaryArray::try_new_with_len,FixedSizeBinaryArray::value tier=quick
 fsb_try_new!(fsb_try_new_w1, 1);
-// @unit name=fsb_try_new_w2 props=C09,C01 kind=bounded bound=value_length=2_values<=7_bytes_validity<=8_bits fns=FixedSizeBinaryArray::try_new,FixedSizeBinaryArray::try_new_with_len,FixedSizeBinaryArray::value
+// @unit name=fsb_try_new_w2 props=C09,C01 kind=bounded bound=value_length=2_values<=7_bytes_validity<=8_bits fns=FixedSizeBinaryArray::try_new,FixedSizeBinaryArray::try_new_with_len,FixedSizeBinaryArray::value tier=quick
 fsb_try_new!(fsb_try_new_w2, 2);
-// @unit name=fsb_try_new_w3 props=C09,C01 kind=bounded bound=value_length=3_values<=7_bytes_validity<=8_bits fns=FixedSizeBinaryArray::try_new,FixedSizeBinaryArray::try_new_with_len,FixedSizeBinaryArray::value tier=thorough note=not_confirmed_at_checkpoint
+// @unit name=fsb_try_new_w3 props=C09,C01 kind=bounded bound=value_length=3_values<=7_bytes_validity<=8_bits fns=FixedSizeBinaryArray::try_new,FixedSizeBinaryArray::try_new_with_len,FixedSizeBinaryArray::value tier=quick
 fsb_try_new!(fsb_try_new_w3, 3);
 
 // Contract (C01, C02): slice(OFF, LEN) of a 3-row FixedSizeBinary(2) array denotes rows [OFF, OFF+LEN)
 // of the model (value bytes, nulls, exact null count); a window that exceeds the array is rejected by a
 // checked panic (may-reject), never read.
-// @unit name=fsb_slice_w2 props=C01,C02 kind=bounded bound=rows=3_width=2_all_windows mayreject=1 fns=FixedSizeBinaryArray::slice,FixedSizeBinaryArray::value tier=thorough note=not_confirmed_at_checkpoint
+// @unit name=fsb_slice_w2 props=C01,C02 kind=bounded bound=rows=3_width=2_all_windows mayreject=1 fns=FixedSizeBinaryArray::slice,FixedSizeBinaryArray::value tier=quick
 #[kani::proof]
 #[kani::unwind(10)]
 #[kani::stub(alloc::fmt::format, stub_format)]
